@@ -7,8 +7,10 @@ namespace RaftLog
 
 structure Sys where
   fs : Fs := []
-  /-- the directory lock is held -/
+  /-- the directory lock is held (by the store, or by a `Dump`) -/
   locked : Bool := false
+  /-- a `Dump` handle holds the lock -/
+  dump : Bool := false
   store : Option Store := none
   worker : Worker := { files := [], pc := .dead }
   /-- configuration used by the next `open` -/
@@ -112,6 +114,13 @@ def Sys.open (y : Sys) : Res Unit × Sys × List Ev :=
       (.ok (), { y with fs := fs', store := some s, worker := w, locked := true }, evs)
     | (.err k, fs', evs) => (.err k, { y with fs := fs' }, evs)
     | (.panic m, fs', evs) => (.panic m, { y with fs := fs' }, evs)
+
+/-- `Dump::new`: takes the directory lock, touches no chunk file. -/
+def Sys.dumpOpen (y : Sys) : Res Unit × Sys :=
+  if y.locked then (.err .locked, y) else (.ok (), { y with locked := true, dump := true })
+
+def Sys.dumpDrop (y : Sys) : Sys :=
+  if y.dump then { y with locked := false, dump := false } else y
 
 /-! ### Queries -/
 
